@@ -35,7 +35,13 @@ var peerAlts = []string{
 	"share-index-0", "share-index-n+1", "share-index-huge", "share-index-negative",
 	"zero-signature", "sig-only-in-proto-field", "garbage-signature", "infinity-signature",
 	"duty-beyond-gater-window",
+	// duty slots whose start time overflows 64-bit nanosecond / slot arithmetic (the duty on the wire is
+	// far outside the window, the signed object itself is an ordinary valid one)
+	"duty-slot-max-uint64", "duty-slot-2^63", "duty-slot-overflows-int64-ns", "duty-slot-huge-seeded",
 }
+
+// pairAlts are two-entry submissions (two validators, one duty, one message / one validatorapi call).
+var pairAlts = []string{"pair-control", "pair-swapped-signatures", "pair-sum-preserving-shift", "pair-one-valid-one-by-other-share"}
 
 var dutyTypeAlts = []string{"duty-type-unknown", "duty-type-out-of-range", "duty-type-builder-proposer", "duty-type-info-sync", "duty-type-signature"}
 
@@ -72,6 +78,12 @@ func (e *env) enumerate() []caseDef {
 		}
 		for i, f := range sample.fields {
 			out = append(out, caseDef{"peer", ts, "flip:" + f.name, i})
+		}
+		for _, a := range pairAlts {
+			out = append(out, caseDef{"peer", ts, a, -1})
+			if sample.many != nil {
+				out = append(out, caseDef{"vc", ts, a, -1})
+			}
 		}
 		if sample.setEpoch != nil {
 			out = append(out, caseDef{"peer", ts, "epoch-field-in-other-fork", -1})
@@ -127,10 +139,183 @@ func (e *env) sender() int {
 	return (e.target + 1 + verifrt.Intn("w", n-1)) % n
 }
 
-func sign(sk tbls.PrivateKey, root [32]byte) eth2p0.BLSSignature {
+// sign signs root with sk and records which public key the signature belongs to: the registry is the
+// harness' reference for "this signature was produced by that key share" at the admission boundaries.
+func (e *env) sign(sk tbls.PrivateKey, root [32]byte) eth2p0.BLSSignature {
 	s, err := tbls.Sign(sk, root[:])
 	must(err)
+	pk, ok := e.pkOf[sk]
+	if !ok {
+		pk, err = tbls.SecretToPublicKey(sk)
+		must(err)
+		e.pkOf[sk] = pk
+	}
+	e.mu.Lock()
+	e.signedBy[eth2p0.BLSSignature(s)] = pk
+	e.mu.Unlock()
 	return eth2p0.BLSSignature(s)
+}
+
+// checkAdmitted is evaluated at the two admission boundaries of the target (ParSigEx subscriber, ValidatorAPI
+// subscriber) for EVERY entry of EVERY set, whatever case is running: the entry's signature must be one the
+// harness produced with the key share the lock records for (entry's validator, entry's share index).
+func (e *env) checkAdmitted(path string, d core.Duty, set core.ParSignedDataSet) {
+	pks := make([]string, 0, len(set))
+	for pk := range set {
+		pks = append(pks, string(pk))
+	}
+	sort.Strings(pks)
+	for _, k := range pks {
+		psd := set[core.PubKey(k)]
+		var sig eth2p0.BLSSignature
+		copy(sig[:], psd.Signature())
+		e.mu.Lock()
+		by, known := e.signedBy[sig]
+		e.cnt.entries[d]++
+		e.mu.Unlock()
+		want, inLock := e.cl.AllShares[core.PubKey(k)][psd.ShareIdx]
+		switch {
+		case !inLock:
+			e.violate("admitted-invalid", path+"/entry/"+d.Type.String()+"/no-such-share-in-lock", "%v: an entry for validator %s share %d passed verification; the lock records no such public share", d, short(core.PubKey(k)), psd.ShareIdx)
+		case !known:
+			e.violate("admitted-invalid", path+"/entry/"+d.Type.String()+"/signature-by-no-key", "%v: the entry for validator %s share %d passed verification with a signature that no key produced (altered or combined signature bytes)", d, short(core.PubKey(k)), psd.ShareIdx)
+		case by != want:
+			e.violate("admitted-invalid", path+"/entry/"+d.Type.String()+"/signature-by-other-key", "%v: the entry for validator %s share %d passed verification with a signature produced by another key than the lock's public share for that validator and share index", d, short(core.PubKey(k)), psd.ShareIdx)
+		default:
+			verifrt.Probe("admitted-entry-by-claimed-share")
+		}
+	}
+}
+
+// negSig is the additive inverse of a compressed BLS12-381 G2 point: the sign flag of the y coordinate flipped.
+func negSig(s eth2p0.BLSSignature) eth2p0.BLSSignature { s[0] ^= 0x20; return s }
+
+func addSig(a, b eth2p0.BLSSignature) eth2p0.BLSSignature {
+	s, err := tbls.Aggregate([]tbls.Signature{tbls.Signature(a), tbls.Signature(b)})
+	must(err)
+	return eth2p0.BLSSignature(s)
+}
+
+// runPair: two validators' entries for one duty in ONE submission (one parsigex message, or one validatorapi
+// call). Both objects are built from the same (slot, salt), so that for types whose signed root does not name
+// the validator (sync messages, selections, electra attestations) the two signing roots are equal.
+func (e *env) runPair(cd caseDef) {
+	cl, ts := e.cl, cd.ts
+	n := cl.Cfg.N
+	name := cd.path + "/" + ts.name + "/" + cd.alt
+	e.c.State(hash(name))
+	e.matrix[cd.path+"/"+ts.name] = append(e.matrix[cd.path+"/"+ts.name], cd.alt)
+	e.salt++
+	ai := verifrt.Intn("w", 2)
+	A, B := cl.Vals[ai], cl.Vals[1-ai]
+	idx := e.target + 1
+	if cd.path == "peer" {
+		idx = 1 + verifrt.Intn("w", n)
+	}
+	other := (idx+verifrt.Intn("w", n-1))%n + 1
+	slot := e.fresh(ts.dt)
+	inA := ts.mk(e, params{v: A, slot: slot, salt: e.salt})
+	inB := ts.mk(e, params{v: B, slot: slot, salt: e.salt})
+	duty := inA.duty
+	e.used[duty] = true
+	if cd.path == "vc" && inA.prep != nil {
+		if err := inA.prep(e.tn); err != nil {
+			e.violate("control-rejected", cd.path+"/"+ts.name+"/prepare", "preparing dutydb/scheduler state failed: %v", err)
+			return
+		}
+	}
+	verA, gvrA := e.correct(ts, inA)
+	verB, gvrB := e.correct(ts, inB)
+	srA := e.signingRoot(inA.root(), ts.domain, verA, gvrA)
+	srB := e.signingRoot(inB.root(), ts.domain, verB, gvrB)
+	if srA == srB {
+		verifrt.Probe("pair-same-signing-root")
+	}
+	sigA, sigB := e.sign(A.Shares[idx], srA), e.sign(B.Shares[idx], srB)
+	cA, cB := sigA, sigB
+	bothInvalid := true
+	switch cd.alt {
+	case "pair-control":
+		bothInvalid = false
+	case "pair-swapped-signatures":
+		cA, cB = sigB, sigA
+	case "pair-sum-preserving-shift":
+		// sigA + D and sigB - D: each is invalid for its entry, their sum is the sum of the valid ones
+		usk, _ := e.unknownKey(e.salt)
+		D, err := tbls.Sign(usk, srA[:])
+		must(err)
+		cA, cB = addSig(sigA, eth2p0.BLSSignature(D)), addSig(sigB, negSig(eth2p0.BLSSignature(D)))
+		if addSig(cA, cB) != addSig(sigA, sigB) {
+			panic("c10 harness: shifted signatures do not preserve the sum")
+		}
+	case "pair-one-valid-one-by-other-share":
+		cB, bothInvalid = e.sign(B.Shares[other], srB), false
+	}
+	before := e.snapshot()
+	if cd.alt == "pair-control" {
+		e.stats["controls"]++
+	} else {
+		e.stats["alterations_injected"]++
+		verifrt.Fault("alt:" + cd.alt)
+	}
+	verifrt.Note("case %s vals=%d,%d share=%d duty=%v same-root=%v", name, A.Index, B.Index, idx, duty, srA == srB)
+	var ret struct {
+		done bool
+		err  error
+	}
+	if cd.path == "peer" {
+		pbA, err := core.ParSignedDataToProto(core.ParSignedData{SignedData: inA.wrap(cA), ShareIdx: idx})
+		must(err)
+		pbB, err := core.ParSignedDataToProto(core.ParSignedData{SignedData: inB.wrap(cB), ShareIdx: idx})
+		must(err)
+		msg := frame(&pbv1.ParSigExMsg{Duty: core.DutyToProto(duty), DataSet: &pbv1.ParSignedDataSet{Set: map[string]*pbv1.ParSignedData{string(A.CorePK): pbA, string(B.CorePK): pbB}}})
+		cl.Net.Inject(cl.PeerIDs[e.sender()], cl.PeerIDs[e.target], protoParSigEx, msg, time.Duration(verifrt.Intn("n", 200))*time.Millisecond)
+	} else {
+		items := []any{inA.item(cA), inB.item(cB)}
+		if verifrt.Intn("w", 2) == 1 {
+			items[0], items[1] = items[1], items[0]
+		}
+		verifrt.GoNode(e.tn.Tag, func() {
+			ctx, cancel := context.WithTimeout(e.tn.Ctx, 3*time.Second)
+			defer cancel()
+			err := inA.many(ctx, e.tn, items)
+			e.mu.Lock()
+			ret.done, ret.err = true, err
+			e.mu.Unlock()
+		})
+	}
+	verifrt.Sleep(quiesce)
+	after := e.snapshot()
+	e.mu.Lock()
+	rerr := ret.err
+	e.mu.Unlock()
+	entries := after.entries[duty] - before.entries[duty]
+	admitted := entries > 0 || after.storedExt[duty] > before.storedExt[duty] || after.storedInt > before.storedInt
+	switch {
+	case cd.alt == "pair-control":
+		if entries < 2 {
+			e.violate("control-rejected", cd.path+"/"+ts.name+"/pair", "two valid partial signatures (validators %d and %d, share %d, %v) in one submission: %d entries were admitted (err=%v)", A.Index, B.Index, idx, duty, entries, rerr)
+			return
+		}
+		e.stats["controls_admitted"]++
+		verifrt.Probe("admitted-pair-control:" + cd.path + "/" + ts.name)
+	case bothInvalid:
+		if admitted {
+			e.violate("admitted-invalid", name, "admitted although neither entry's signature verifies under the lock's public share of its own validator (same signing root: %v; the two signatures' sum equals the sum of the valid ones): validators %d and %d, share %d, %v, entries admitted %d, call err=%v", srA == srB, A.Index, B.Index, idx, duty, entries, rerr)
+		}
+		if after.out > before.out || after.exBcast > before.exBcast {
+			e.violate("forwarded-invalid", name, "the submission of two invalid entries caused outgoing traffic from the target (envelopes %d, broadcasts %d)", after.out-before.out, after.exBcast-before.exBcast)
+		}
+		if after.aggCalls[duty] > before.aggCalls[duty] || after.aggOut[duty] > before.aggOut[duty] || after.bcast[duty] > before.bcast[duty] {
+			e.violate("aggregated-invalid", name, "the submission of two invalid entries reached aggregation for %v", duty)
+		}
+	default:
+		// one valid, one invalid entry: whether the valid one is admitted is not stated; the invalid one is
+		// judged entry by entry at the admission boundaries (checkAdmitted)
+		if entries > 0 {
+			verifrt.Probe("pair-mixed-partly-admitted")
+		}
+	}
 }
 
 // injectNoise sends one more valid partial signature (another fresh duty) to the target, delivered while
@@ -143,7 +328,7 @@ func (e *env) injectNoise() {
 	e.salt++
 	in := ts.mk(e, params{v: v, slot: e.fresh(ts.dt), salt: e.salt})
 	ver, gvr := e.correct(ts, in)
-	sig := sign(v.Shares[idx], e.signingRoot(in.root(), ts.domain, ver, gvr))
+	sig := e.sign(v.Shares[idx], e.signingRoot(in.root(), ts.domain, ver, gvr))
 	pb, err := core.ParSignedDataToProto(core.ParSignedData{SignedData: in.wrap(sig), ShareIdx: idx})
 	must(err)
 	e.noises = append(e.noises, noiseRec{ts.name, in.duty})
@@ -153,6 +338,10 @@ func (e *env) injectNoise() {
 }
 
 func (e *env) runCase(cd caseDef) {
+	if strings.HasPrefix(cd.alt, "pair-") {
+		e.runPair(cd)
+		return
+	}
 	cl, ts := e.cl, cd.ts
 	n, spe := cl.Cfg.N, cl.Chain.SlotsPerEpoch
 	name := cd.path + "/" + ts.name + "/" + cd.alt
@@ -202,6 +391,17 @@ func (e *env) runCase(cd caseDef) {
 		in.setEpoch(cands[verifrt.Intn("w", len(cands))])
 	}
 	duty := in.duty
+	switch cd.alt {
+	case "duty-slot-max-uint64":
+		duty.Slot = ^uint64(0)
+	case "duty-slot-2^63":
+		duty.Slot = 1 << 63
+	case "duty-slot-overflows-int64-ns":
+		// the first slots whose start, in nanoseconds since genesis, no longer fits an int64
+		duty.Slot = uint64(int64(^uint64(0)>>1)/int64(cl.Chain.SlotDuration)) + 1 + uint64(verifrt.Intn("w", 64))
+	case "duty-slot-huge-seeded":
+		duty.Slot = uint64(verifrt.Intn("w", 1<<30))<<34 | 1<<33 | uint64(verifrt.Intn("w", 1<<30))
+	}
 	dom := ts.domain
 	ver, gvr := e.correct(ts, in)
 	if cd.path == "vc" && in.prep != nil {
@@ -218,7 +418,8 @@ func (e *env) runCase(cd caseDef) {
 	protoSigOnly, truncate, rawSig := false, false, false
 	post := func() {}
 	switch cd.alt {
-	case "control", "control-last-slot-in-gater-window", "duty-beyond-gater-window":
+	case "control", "control-last-slot-in-gater-window", "duty-beyond-gater-window",
+		"duty-slot-max-uint64", "duty-slot-2^63", "duty-slot-overflows-int64-ns", "duty-slot-huge-seeded":
 	case "sig-by-other-share":
 		signer = A.Shares[other]
 	case "other-share-index":
@@ -305,13 +506,13 @@ func (e *env) runCase(cd caseDef) {
 			if j == claimIdx || j == idx {
 				continue
 			}
-			pb, err := core.ParSignedDataToProto(core.ParSignedData{SignedData: in.wrap(sign(claimVal.Shares[j], good)), ShareIdx: j})
+			pb, err := core.ParSignedDataToProto(core.ParSignedData{SignedData: in.wrap(e.sign(claimVal.Shares[j], good)), ShareIdx: j})
 			must(err)
 			primes = append(primes, e.peerMsg(in.duty, claimVal.CorePK, pb))
 		}
 	}
 
-	sig := sign(signer, e.signingRoot(in.root(), sdom, sver, sgvr))
+	sig := e.sign(signer, e.signingRoot(in.root(), sdom, sver, sgvr))
 	post() // content changes happen after signing
 	carried := sig
 	if override != nil {
@@ -402,7 +603,7 @@ func (e *env) runCase(cd caseDef) {
 			// keep the whole set out, whichever entry the handler verifies first
 			inB := ts.mk(e, params{v: B, slot: slot, salt: e.salt + 1000})
 			vB, gB := e.correct(ts, inB)
-			pbB, err := core.ParSignedDataToProto(core.ParSignedData{SignedData: inB.wrap(sign(B.Shares[idx], e.signingRoot(inB.root(), dom, vB, gB))), ShareIdx: idx})
+			pbB, err := core.ParSignedDataToProto(core.ParSignedData{SignedData: inB.wrap(e.sign(B.Shares[idx], e.signingRoot(inB.root(), dom, vB, gB))), ShareIdx: idx})
 			must(err)
 			msg = frame(&pbv1.ParSigExMsg{Duty: core.DutyToProto(duty), DataSet: &pbv1.ParSignedDataSet{Set: map[string]*pbv1.ParSignedData{string(claimPK): pb, string(B.CorePK): pbB}}})
 			e.tn.Beacon.Latency = func(string) time.Duration { return 2600 * time.Millisecond }
